@@ -25,6 +25,14 @@ func isLow32(v ssa.Value, src ssa.Value) bool {
 	if x, k, ok := asBinConst(v, token.AND); ok && uint64(k) == 0xffffffff && stripConvTo(x) == src {
 		return true
 	}
+	// an in-module accessor applied to src whose own single result is the low 32 bits of its parameter (PathMask(p))
+	if call, ok := v.(*ssa.Call); ok && len(call.Common().Args) == 1 && call.Common().Args[0] == src {
+		if f := call.Common().StaticCallee(); f != nil && len(f.Blocks) == 1 && len(f.Params) == 1 && strings.HasPrefix(funcFullName(f), "github.com/openacid/low/") {
+			if ret, ok := f.Blocks[0].Instrs[len(f.Blocks[0].Instrs)-1].(*ssa.Return); ok && len(ret.Results) == 1 {
+				return isLow32(ret.Results[0], f.Params[0])
+			}
+		}
+	}
 	return false
 }
 
